@@ -1737,145 +1737,4 @@ theorem same_opMoc (h : w₁.SameW w₂) (g₁ : w₁.Good) (g₂ : w₂.Good) (
     rw [hc.spord_eq, hc.covord_eq, ← hmw, show w₂.mocs = w₁.mocs from h.2.2.2.1.symm]
     exact ⟨rfl, h.with_mocs _⟩
 
-/-! ### storing through a record-field view: the column is written back into the parent -/
-
-/-- the update left the index and the size of the storage alone (what an update through a view
-    does: the guard against new pixels makes every addressed pixel a covered one) -/
-def SameShape (v v' : MapObj) : Prop := v'.st.cov = v.st.cov ∧ v'.st.sp.size = v.st.sp.size
-
-theorem SameShape.refl' (v : MapObj) (x : Option Nat) : SameShape v { v with cache := x } := ⟨rfl, rfl⟩
-
-/-- the dense view of the parent after a write-back, pixel by pixel -/
-theorem writeBackView_abs {p v' : MapObj} (i : Nat) (hp : p.WF) (hcov : v'.st.cov = p.st.cov)
-    (hsz : v'.st.sp.size = p.st.sp.size) (hc : v'.c = p.c) {q : Nat} (hq : q < p.npix) :
-    (writeBackView p i v').abs q = recSetField i (p.abs q) (v'.abs q) := by
-  have hidx := hp.2.idxOf_lt_size hq
-  have hl : lookup v'.c v'.st q = lookup p.c p.st q := by unfold lookup; rw [hc, hcov]
-  show rd (p.st.sp.mapIdx fun j r => recSetField i r (rd v'.st.sp j (.num 0 0)))
-      (lookup p.c ⟨p.st.cov, _⟩ q).toNat _ = _
-  have hl' : lookup p.c ⟨p.st.cov, p.st.sp.mapIdx fun j r => recSetField i r (rd v'.st.sp j (.num 0 0))⟩ q
-      = lookup p.c p.st q := rfl
-  rw [hl']
-  have hidx' : (lookup p.c p.st q).toNat < p.st.sp.size := hidx
-  unfold rd
-  rw [Array.getElem?_mapIdx, Array.getElem?_eq_getElem hidx']
-  simp only [Option.map_some, Option.getD_some]
-  unfold MapObj.abs abs rd
-  rw [hl, Array.getElem?_eq_getElem hidx', Array.getElem?_eq_getElem (by rw [hsz]; exact hidx')]
-  simp only [Option.getD_some]
-
-/-- **write-backs of content-equal views into content-equal parents are content-equal** -/
-theorem writeBackView_sameC {p₁ p₂ v₁ v₂ : MapObj} (i : Nat) (hp : p₁.SameC p₂) (hv : v₁.SameC v₂)
-    (hw1 : p₁.WF) (hw2 : p₂.WF) (r1 : (writeBackView p₁ i v₁).WF) (r2 : (writeBackView p₂ i v₂).WF)
-    (s1 : v₁.st.cov = p₁.st.cov ∧ v₁.st.sp.size = p₁.st.sp.size)
-    (s2 : v₂.st.cov = p₂.st.cov ∧ v₂.st.sp.size = p₂.st.sp.size) (hc : v₁.c = p₁.c) :
-    (writeBackView p₁ i v₁).SameC (writeBackView p₂ i v₂) := by
-  have hc2 : v₂.c = p₂.c := by rw [hv.c_eq, hc, hp.c_eq]
-  refine ⟨hp.1, hp.2.1, hp.2.2.1, hp.2.2.2.1, rfl, hp.2.2.2.2.2.1, r1.2, ?_, ?_, ?_⟩
-  · have := r2.2
-    have e1 : (writeBackView p₂ i v₂).c = p₁.c := hp.c_eq
-    have e2 : (writeBackView p₂ i v₂).vc = p₁.vc := hp.vc_eq
-    rw [e1, e2] at this
-    exact this
-  · intro q hq
-    have hq1 : q < p₁.npix := hq
-    have hq2 : q < p₂.npix := by rw [hp.npix_eq]; exact hq
-    have a1 := writeBackView_abs i hw1 s1.1 s1.2 hc hq1
-    have a2 := writeBackView_abs i hw2 s2.1 s2.2 hc2 hq2
-    have hvq : q < v₁.npix := by unfold MapObj.npix; rw [hc]; exact hq
-    unfold MapObj.abs at a1 a2
-    have e1 : (writeBackView p₂ i v₂).c = p₁.c := hp.c_eq
-    have e2 : (writeBackView p₂ i v₂).vc = p₁.vc := hp.vc_eq
-    rw [e1, e2] at a2
-    have b1 : (writeBackView p₁ i v₁).c = p₁.c := rfl
-    have b2 : (writeBackView p₁ i v₁).vc = p₁.vc := rfl
-    rw [b1, b2] at a1
-    rw [a1, a2]
-    have := hp.abs_eq hq1
-    have := hv.abs_eq hvq
-    unfold MapObj.abs at *
-    simp only [*]
-  · intro k hk
-    show covered p₁.c p₁.st k = covered p₁.c ⟨p₂.st.cov, _⟩ k
-    exact hp.same.2.2.2 k hk
-
-/-- **`World.put` in content-equal good worlds**, owning target or view: the stored objects are
-    content-equal updates of what the name resolved to, with the operand's configuration, kind,
-    sentinel and view flag; through a view the update left index and size alone -/
-theorem World.SameW.put_inplace (h : w₁.SameW w₂) (g₁ : w₁.Good) (g₂ : w₂.Good) {n : String}
-    {m₁ m₂ m₁' m₂' : MapObj} (e1 : w₁.get? n = some m₁) (e2 : w₂.get? n = some m₂)
-    (hc : m₁'.SameC m₂') (ok1 : m₁'.Ok) (ok2 : m₂'.Ok) (hs1 : m₁'.Same m₁) (hs2 : m₂'.Same m₂)
-    (sh1 : m₁.view ≠ none → SameShape m₁ m₁') (sh2 : m₂.view ≠ none → SameShape m₂ m₂') :
-    (w₁.put n m₁').SameW (w₂.put n m₂') := by
-  rcases World.get?_cases e1 with ⟨hr, hv⟩ | ⟨d, pn, i, p, hd, hdv, hp, hs, hmat, _, _⟩
-  · exact h.put_owning n hc (hs1.2.2.2.2.trans hv)
-  · -- a view: both worlds hold the same descriptor and content-equal parents
-    rcases World.get?_cases e2 with ⟨hr2, hv2⟩ | ⟨d', pn', i', p', hd', hdv', hp', hs', hmat', _, _⟩
-    · exfalso
-      obtain ⟨_, _, _, _, _, _, _, _, _, g7⟩ := materializeView_ok hmat
-      have : m₂'.view = none := hs2.2.2.2.2.trans hv2
-      rw [← hc.2.2.2.2.2.1, hs1.2.2.2.2, g7] at this
-      cases this
-    · obtain ⟨_, _, _, a1, a2, a3, a4, a5, _, a7⟩ := materializeView_ok hmat
-      obtain ⟨_, _, _, b1, b2, b3, b4, b5, _, b7⟩ := materializeView_ok hmat'
-      -- same descriptor, same parent name
-      have hmv1 : m₁'.view = some (pn, i) := hs1.2.2.2.2.trans a7
-      have hmv2 : m₂'.view = some (pn', i') := hs2.2.2.2.2.trans b7
-      have hpi : (pn', i') = (pn, i) := by
-        have := hc.2.2.2.2.2.1
-        rw [hmv1, hmv2] at this
-        exact (Option.some.inj this).symm
-      cases hpi
-      -- the parents
-      rcases h.raw pn with ⟨q1, _⟩ | ⟨P₁, P₂, q1, q2, hP⟩
-      · rw [q1] at hp; cases hp
-      rw [q1] at hp; cases hp
-      rw [q2] at hp'; cases hp'
-      obtain ⟨E₁, hE1, _, rfl⟩ := World.raw?_mem q1
-      obtain ⟨E₂, hE2, _, rfl⟩ := World.raw?_mem q2
-      have hrec := materializeView_parent_recd hmat
-      have hpv1 : E₁.2.view = none := by
-        cases hvv : E₁.2.view with
-        | none => rfl
-        | some x =>
-          have := g₁.2.1 E₁ hE1 (by rw [hvv]; exact fun h => nomatch h)
-          rw [this] at hrec; cases hrec
-      have hPc : E₁.2.SameC E₂.2 := by
-        rcases hP with ⟨_, hP⟩ | ⟨hne, _⟩
-        · exact hP
-        · exact absurd hpv1 hne
-      have hpv2 : E₂.2.view = none := by rw [← hPc.2.2.2.2.2.1]; exact hpv1
-      have hpok1 := g₁.1 E₁ hE1 hpv1
-      have hpok2 := g₂.1 E₂ hE2 hpv2
-      have hdisc1 : (w₁.raw? n).bind (·.view) = some (pn, i) := by rw [hd]; exact hdv
-      have hdisc2 : (w₂.raw? n).bind (·.view) = some (pn, i) := by rw [hd']; exact hdv'
-      -- well-formedness of the two write-backs
-      have r1 : (writeBackView E₁.2 i m₁').WF := by
-        refine WF.writeBackView_of_WF hpok1.1 ok1.1 ?_ (hs1.1.trans a1) (hs1.2.1.trans a2)
-        show m₁'.kind.blank m₁'.sent = _
-        rw [hs1.2.2.1, a3, hs1.2.2.2.1, a4, hs]; rfl
-      have r2 : (writeBackView E₂.2 i m₂').WF := by
-        refine WF.writeBackView_of_WF hpok2.1 ok2.1 ?_ (hs2.1.trans b1) (hs2.2.1.trans b2)
-        show m₂'.kind.blank m₂'.sent = _
-        rw [hs2.2.2.1, b3, hs2.2.2.2.1, b4, hs']; rfl
-      have hv1ne : m₁.view ≠ none := by rw [a7]; exact fun h => nomatch h
-      have hv2ne : m₂.view ≠ none := by rw [b7]; exact fun h => nomatch h
-      have t1 := sh1 hv1ne
-      have t2 := sh2 hv2ne
-      have s1 : m₁'.st.cov = E₁.2.st.cov ∧ m₁'.st.sp.size = E₁.2.st.sp.size := by
-        rw [t1.1, t1.2, a5]; exact ⟨rfl, by simp [mapCells]⟩
-      have s2 : m₂'.st.cov = E₂.2.st.cov ∧ m₂'.st.sp.size = E₂.2.st.sp.size := by
-        rw [t2.1, t2.2, b5]; exact ⟨rfl, by simp [mapCells]⟩
-      have hcc : m₁'.c = E₁.2.c := by unfold MapObj.c; rw [hs1.1, hs1.2.1, a1, a2]
-      have hwb := writeBackView_sameC i hPc hc hpok1.1 hpok2.1 r1 r2 s1 s2 hcc
-      -- the two stores
-      unfold World.put
-      rw [hdisc1, hdisc2, hmv1, hmv2, q1, q2]
-      simp only []
-      refine ⟨?_, h.2.1, h.2.2.1, h.2.2.2.1, h.2.2.2.2.1, h.2.2.2.2.2⟩
-      refine .cons (.inr ⟨by show m₁'.view ≠ none; rw [hmv1]; exact fun h => nomatch h, ?_⟩)
-        (.cons (.inl ⟨hpv1, hwb⟩) (h.1.filter fun s => s != n && s != pn))
-      have := hc.eq_with_st
-      rw [this]
-
 end HS
